@@ -132,7 +132,11 @@ func (w *W) Sample(v any) {
 }
 
 // WantSample reports whether more samples are wanted (to avoid building them needlessly).
-func (w *W) WantSample() bool { w.mu.Lock(); defer w.mu.Unlock(); return len(w.sum.Samples) < maxSamples }
+func (w *W) WantSample() bool {
+	w.mu.Lock()
+	defer w.mu.Unlock()
+	return len(w.sum.Samples) < maxSamples
+}
 
 // Trace logs the case about to be executed when trace mode is on (crash attribution).
 func (w *W) Trace(c any) {
